@@ -627,6 +627,9 @@ func TestC11(t *testing.T) {
 			c11v4(h)
 		}
 		for _, vi := range []int{1, 2, 3} {
+			ws := newWindowSpace(vi, 6)
+			Enum(h, "score-shape", ws.size(), func(i int) ScoreCase { return ScoreCase{Ver: vi, A: ws.assignment(i)} }, nil, checkScoreShape)
+			h.R.AddExact(int64(ws.size()), int64(ws.size()))
 			cs := newCornerSpace(vi)
 			Enum(h, "score-shape", cs.size(), cs.decode, nil, checkScoreShape)
 			h.R.AddExact(int64(cs.size()), int64(cs.size()))
